@@ -46,6 +46,7 @@ def _job(task, sn=1, msgs=('started', 'succeeded')):
 
 
 _AB = _flow('            a => b\n            b => c', fcp=2)
+_ABC = _flow('            a => b => c => d')
 # hand-written regression histories (run first on every check)
 _CORPUS = {
     # held + paused: the group-start member runs all the same, the other member after it, each once
@@ -59,6 +60,15 @@ _CORPUS = {
     # a live non-start member is removed (job killed) and re-run after its in-group parent
     'kill-and-rerun': (_AB, [_L] + _job('1/a') + [_L, _L] + _job('1/b', msgs=('started',))
                        + [_L, _trig(['1/a', '1/b'], flow=['1']), _L] + _job('1/a', sn=2) + [_L, _L]),
+    # `cylc hold` of a member that is not in the pool BEFORE the trigger: a future one (1/c) ...
+    'held-future-member': (_ABC, [_cmd('pause'), _cmd('hold', tasks=['1/c']), _trig(['1/a', '1/b', '1/c']),
+                                  _cmd('resume'), _L] + _job('1/a') + [_L, _L] + _job('1/b') + [_L, _L]
+                           + _job('1/c') + [_L, _L]),
+    # ... and a finished one (1/b) in the re-run of a finished sub-graph; the trigger overrides both holds
+    'held-finished-member': (_ABC, [_cmd('hold', tasks=['1/d']), _L] + _job('1/a') + [_L, _L] + _job('1/b')
+                             + [_L, _L] + _job('1/c') + [_L, _L, _cmd('hold', tasks=['1/b']),
+                                _trig(['1/a', '1/b', '1/c']), _L] + _job('1/a', sn=2) + [_L, _L]
+                             + _job('1/b', sn=2) + [_L, _L] + _job('1/c', sn=2) + [_L, _L]),
     # flow-wait trigger, then the original flow catches up
     'flow-wait': (_AB, [_trig(['2/b'], flow=['2'], wait=True), _L] + _job('2/b') + [_L, _L] + _job('1/a')
                   + [_L, _L] + _job('1/b') + [_L, _L]),
@@ -75,6 +85,7 @@ class C28(SchedProp):
         'CylcModel.C28.submit_once_per_loop',
         'CylcModel.C28.live_start_member_left_alone',
         'CylcModel.C28.non_start_member_queued_for_removal',
+        'CylcModel.C28.trigger_releases_member_holds',
         'CylcModel.C28.off_group_forced',
         'CylcModel.C28.parentless_all_forced',
         'CylcModel.C28.in_group_kept',
@@ -370,11 +381,13 @@ C28.statement_note = (
     'judge only): the end-to-end statements "each member runs exactly once more along every continuation" (liveness over the '
     'whole scheduler incl. removal, kill and respawn), the ordering of later submissions after in-group outputs, '
     'whole-command versions of (3)/(4) through _remove_matched_tasks, and (3) for a live member that is in no flow or '
-    'flow-waiting (merge_flows then also spawns on its completed outputs). Six deviations of cylc-flow from the property '
-    'text are recorded as findings: live-parent-any-output (repair proposed: findings/C28-fix-1.diff), '
-    'unpooled-object-triggered (repair proposed: findings/C28-fix-2.diff), sequential-task, abs-trigger-in-group, '
-    'other-flow-member; and a regression of cylc-flow ec8c5af, queued-row-survives-removal (a finished group-start member is '
-    'silently not re-run; repair proposed: findings/C28-fix-3.diff; the model follows the three behaviours of '
-    '_load_historical_outputs through the probed flag TrigFlags.rowInsertMode).')
+    'flow-waiting (merge_flows then also spawns on its completed outputs). Eight deviations of cylc-flow from the property '
+    'text have been recorded: live-parent-any-output and unpooled-object-triggered (both repaired in /repo since: '
+    'findings/C28-fix-1.diff, C28-fix-2.diff), queued-row-survives-removal (a regression of the withdrawn commit ec8c5af; '
+    'flag TrigFlags.rowInsertMode), and the open findings sequential-task, abs-trigger-in-group, other-flow-member, '
+    'hold-point-blocks-member, flow-none-keeps-hold. Also proved: release_held_tasks as applied by the command leaves '
+    'none of the removed / not-pooled members on the hold list (trigger_releases_member_holds); the behaviour of the '
+    'later repairs 6e65a44 / e8480f1 / f48c598 / 472081b is followed through five more probed flags '
+    '(triggered_again_is_not_requeued states the first).')
 
 PROP = C28()
